@@ -443,7 +443,12 @@ def recover_case(sh, s, d, case, only_damage=None):
                     [r['oid'] for r in c['records']] == [r['oid'] for r in t['records']]
                 if same:
                     for rc, ro in zip(c['records'], t['records']):
-                        if rc['plen'] and resolve(ob, ro) != rc['data']:
+                        # the data a record stands for - its own, or what its back pointer leads to in the (damaged) input
+                        try:
+                            want = resolve(bad, rc)
+                        except Exception:
+                            want = rc['data'] if rc['plen'] else NotImplemented      # pointer into the damage: no expectation
+                        if want is not NotImplemented and resolve(ob, ro) != want:
                             same = False
                 if same:
                     found = p
